@@ -7,6 +7,7 @@
 //	R3  yield after channel send / receive statements, at the top of select
 //	    communication clauses, after x.Wait()
 //	R4  time.Sleep / time.AfterFunc -> simrt.Sleep / simrt.AfterFunc
+//	R7  zstd.NewReader(r) / zstd.NewWriter(w) -> with a codec concurrency of 1 (no worker goroutines inside the dependency)
 //	R5  import "os" -> simos shim in the packages that touch the disk
 //	R6  regclient.New: append VerifRegOpts() to the reg scheme options
 //
@@ -85,6 +86,7 @@ type rewriter struct {
 	nYld  int
 	nMu   int
 	nTime int
+	nZstd int
 	tmp   int
 }
 
@@ -167,6 +169,24 @@ func (r *rewriter) Visit(n ast.Node) ast.Visitor {
 			x.Body = append([]ast.Stmt{yieldStmt("select@" + r.site(x.Pos()))}, x.Body...)
 			r.used = true
 			r.nYld++
+		}
+	case *ast.CallExpr:
+		// R7: the zstd codec of the dependency starts worker goroutines of its own (as many as GOMAXPROCS allows);
+		// with a concurrency of one it encodes and decodes on the calling goroutine, which the scheduler owns
+		if se, ok := x.Fun.(*ast.SelectorExpr); ok {
+			if id, ok := se.X.(*ast.Ident); ok && id.Obj == nil && id.Name == "zstd" && len(x.Args) == 1 {
+				opt := ""
+				switch se.Sel.Name {
+				case "NewReader":
+					opt = "WithDecoderConcurrency"
+				case "NewWriter":
+					opt = "WithEncoderConcurrency"
+				}
+				if opt != "" {
+					x.Args = append(x.Args, &ast.CallExpr{Fun: &ast.SelectorExpr{X: ast.NewIdent("zstd"), Sel: ast.NewIdent(opt)}, Args: []ast.Expr{&ast.BasicLit{Kind: token.INT, Value: "1"}}})
+					r.nZstd++
+				}
+			}
 		}
 	case *ast.SelectorExpr:
 		if id, ok := x.X.(*ast.Ident); ok && id.Obj == nil {
@@ -304,7 +324,7 @@ func main() {
 		}
 		r := &rewriter{fset: fset}
 		ast.Walk(r, f)
-		changed := r.used
+		changed := r.used || r.nZstd > 0
 		if r.used {
 			addImport(f, "", simrtPath)
 			if !usesPkg(f, "sync") {
@@ -346,6 +366,7 @@ func main() {
 		tot.nYld += r.nYld
 		tot.nMu += r.nMu
 		tot.nTime += r.nTime
+		tot.nZstd += r.nZstd
 		return nil
 	})
 	if err != nil {
@@ -358,5 +379,13 @@ func main() {
 	if err := os.WriteFile(filepath.Join(root, "verif_hook.go"), []byte(hook), 0o644); err != nil {
 		fatal("%v", err)
 	}
-	fmt.Printf("instrument: %d files rewritten; go=%d yields=%d mutex=%d time=%d\n", files, tot.nGo, tot.nYld, tot.nMu, tot.nTime)
+	// mod: the process start time (recorded in the history of added layers) becomes settable, so that a run can
+	// model separate invocations at different simulated times
+	modHook := "package mod\n\n// VerifProcessStart re-reads the start time as a new process would (scratch copy only).\nfunc VerifProcessStart() { timeStart = timeNow() }\n"
+	if _, err := os.Stat(filepath.Join(root, "mod", "time.go")); err == nil {
+		if err := os.WriteFile(filepath.Join(root, "mod", "verif_hook.go"), []byte(modHook), 0o644); err != nil {
+			fatal("%v", err)
+		}
+	}
+	fmt.Printf("instrument: %d files rewritten; go=%d yields=%d mutex=%d time=%d zstd=%d\n", files, tot.nGo, tot.nYld, tot.nMu, tot.nTime, tot.nZstd)
 }
